@@ -63,7 +63,7 @@ FILE_PROPS = [
     ("src/strict/hypergraph/arrow", ["C18"]), ("src/strict/hypergraph/object", ["C05", "C01", "C17"]),
     ("src/strict/open_hypergraph/", ["C01", "C02", "C04", "C17", "C05"]), ("src/strict/functor/optic", ["C14"]),
     ("src/strict/functor/", ["C12"]), ("src/strict/layer", ["C15"]), ("src/strict/graph", ["C15", "C17", "C18"]),
-    ("src/strict/eval", ["C16"]), ("src/lax/hypergraph", ["C09", "C11", "C05"]), ("src/lax/open_hypergraph", ["C09", "C10", "C11", "C04"]),
+    ("src/strict/eval", ["C16"]), ("src/lax/hypergraph", ["C09", "C11", "C05", "C02"]), ("src/lax/open_hypergraph", ["C09", "C10", "C11", "C04"]),
     ("src/lax/functor/", ["C13", "C12"]), ("src/lax/optic", ["C14"]), ("src/lax/var/", ["C19"]),
     ("src/lax/category", ["C10", "C02", "C04", "C05"]), ("src/lax/mut_category", ["C10", "C02"]), ("src/category/", ["C04", "C03", "C06"]),
     ("src/operations", ["C05", "C08"]),
